@@ -16,15 +16,16 @@ Theorem resolve_binds_uri : forall d its r, resolve_all d its = Some r -> Forall
 Proof. exact resolve_all_binds. Qed.
 Print Assumptions resolve_binds_uri.
 
-(* 3. Frame: no sequence of namespace operations (successful or rejected) changes any selector item. *)
-Theorem ns_ops_preserve_pairs : forall ops sh, ordered sh = true -> pairs (run ops sh) = pairs sh.
+(* 3. Frame: no sequence of namespace operations (successful or rejected) changes any selector item, on ANY sheet
+      (since the repair of __delitem__ no order hypothesis is needed). *)
+Theorem ns_ops_preserve_pairs : forall ops sh,
+  pairs (run ops sh) = pairs sh /\ items_of (run ops sh) = items_of sh.
 Proof. exact pairs_frame. Qed.
 Print Assumptions ns_ops_preserve_pairs.
-Theorem ns_ops_preserve_pairs_parsed : forall stmts ops,
-  pairs (run ops (fst (parse stmts))) = pairs (fst (parse stmts)) /\
-  items_of (run ops (fst (parse stmts))) = items_of (fst (parse stmts)).
-Proof. exact pairs_frame_parsed. Qed.
-Print Assumptions ns_ops_preserve_pairs_parsed.
+(* and every history leaves the @namespace rules of a parsed sheet in front of its rule sets *)
+Theorem ns_ops_keep_order : forall stmts ops, ordered (run ops (fst (parse stmts))) = true.
+Proof. exact order_kept. Qed.
+Print Assumptions ns_ops_keep_order.
 
 (* 4. In every reachable sheet every @namespace rule still holds, and prints, its prefix and URI
       (after the repair of _setPrefix; on the pinned tree `@namespace "u";` + namespaces[''] = "u" printed `@namespace;`). *)
@@ -39,8 +40,7 @@ Theorem delete_protected : forall sh i r,
   step (ODelRule i) sh = (sh, Raise ENoMod) /\ delete_rule i sh = (sh, Raise ENoMod).
 Proof. exact delete_protected_step. Qed.
 Print Assumptions delete_protected.
-Theorem used_uri_keeps_declaration : forall stmts ops k u n,
-  let sh := fst (parse stmts) in
+Theorem used_uri_keeps_declaration : forall sh ops k u n,
   In (IPair k (UStr u) n) (items_of sh) -> (exists r, In r (nsl sh) /\ uri r = u) ->
   In (IPair k (UStr u) n) (items_of (run ops sh)) /\ exists r, In r (nsl (run ops sh)) /\ uri r = u.
 Proof. exact used_uri_stays_declared. Qed.
